@@ -57,6 +57,7 @@ func runClusterTrace(e *simcore.Env, tp *simcore.Tape) {
 		}
 		defer sa.Stop()
 		m := wl.NewTraceModel(s)
+		m.TolerateTag = func(string) bool { return true } // value fidelity is judged by C13/C01
 		e.Event("cluster data-nodes=%d shards=%d tags=%v durRule=%v tsRule=%v liaison flags=%v", nData, s.Shards, s.Tags, s.DurRule, s.TsRule, liaisonFlags)
 		// the bubble's clock starts at 2000-01-01T00:00:00Z: span times are drawn around that midnight and the 0-2
 		// midnights before it ("now" of the plan is one second past midnight, a trace's spans spread backwards from
